@@ -319,6 +319,15 @@ func (e *Exec) evalExternal(call *ast.CallExpr, st *State, ctx *Ctx) []string {
 		if len(call.Args) == 2 {
 			return []string{"(pathJoin " + arg(0) + " " + arg(1) + ")"}
 		}
+	case "encoding/json.Number.Int64":
+		e.note("json.Number.Int64 / Float64 are the uninterpreted parses numInt64 / numFloat of the literal (strconv; assumed deterministic)")
+		recv := e.eval(call.Fun.(*ast.SelectorExpr).X, st, ctx)
+		return []string{"(numInt64 " + recv + ")", "(numInt64E " + recv + ")"}
+	case "encoding/json.Number.Float64":
+		recv := e.eval(call.Fun.(*ast.SelectorExpr).X, st, ctx)
+		return []string{"(numFloat " + recv + ")", "(numFloatE " + recv + ")"}
+	case "encoding/json.Number.String":
+		return []string{e.eval(call.Fun.(*ast.SelectorExpr).X, st, ctx)}
 	case "path/filepath.Ext":
 		return []string{"(pathExt " + arg(0) + ")"}
 	case "os.Stat":
